@@ -40,6 +40,19 @@ pub fn digest_out(h: &mut u64, r: &Res) {
 }
 
 fn stream(bars: bool, len: usize, seed: u64) -> Vec<Op> {
+    // a third of the streams carry non-finite / extreme inputs: "the same history" includes those
+    if seed % 3 == 2 {
+        let mut r = Rng::new(seed);
+        return (0..len)
+            .map(|_| {
+                if bars {
+                    Op::NextBar(if r.chance(0.15) { crate::gen::hostile_bar(&mut r) } else { Bar::flat(r.uniform(1.0, 50.0), r.f()) })
+                } else {
+                    Op::NextF(if r.chance(0.15) { crate::gen::hostile_scalar(&mut r) } else { r.uniform(-20.0, 80.0) })
+                }
+            })
+            .collect();
+    }
     if bars {
         let mut g = BarGen::new(BarStyle::Mixed, 1.0, seed);
         (0..len).map(|_| Op::NextBar(g.next())).collect()
